@@ -122,6 +122,18 @@ def gate_rule(res, rule, verdict, what, g):
         res.violate(rule, g.body["id"] if g.body else "Paseto::parse_raw_token", what, why or "gate not established", file=g.v.file() if g.body else None, line=g.body["line"] if g.body else None)
 
 
+def state_rule(res, rule, facts, entries):
+    """no state that outlives a call is touched by anything reachable from the token entry points (rules/layers.py process_state)"""
+    from .. import layers
+    for f in layers.process_state(facts, entries, rule):
+        res.oblige(f.ok)
+        if f.ok:
+            res.inst(f.rule, f.desc)
+        else:
+            res.violate(f.rule, f.where, f.construct, f.msg, file=f.file, line=f.line)
+    res.floor(rule, 1)
+
+
 def refusal_rules(res, rule, facts):
     """parse_raw_token turns a token away only for a stated cause, and decodes the payload segment with URL_SAFE_NO_PAD
     (round-trip side of the textual gates: what the producing side writes is never refused)."""
